@@ -405,6 +405,9 @@ class Engine:
         return S(v)
 
     def store_item(self, o, i, v, st):
+        if hasattr(o, "pyvc_setitem"):
+            yield from o.pyvc_setitem(self, i, v, st)
+            return
         if isinstance(o, RefsDict):
             # self._refs[key] = <list value>: a NEW list object is stored under key
             if not isinstance(v, (SList, LRef)):
@@ -617,6 +620,9 @@ class Engine:
             yield from self.load_attr(o, attr, st2)
 
     def load_attr(self, o, attr, st):
+        if hasattr(o, "pyvc_attr"):
+            yield from o.pyvc_attr(self, attr, st)
+            return
         if isinstance(o, Obj):
             a = st.attrs(o)
             if attr in a:
@@ -1218,6 +1224,9 @@ class Engine:
                 yield from self.call_value(f, pos, kw, st2, spelled)
 
     def call_value(self, f, pos, kw, st, spelled="?"):
+        if hasattr(f, "pyvc_call"):
+            yield from f.pyvc_call(self, pos, kw, st)
+            return
         if isinstance(f, BoundMethod):
             yield from self.call_function(f.func, [f.recv] + list(pos), kw, st, spelled)
         elif isinstance(f, StrMethod):
